@@ -44,9 +44,13 @@ def run(chk):
         inlen = len(r["case"]["stdin"].encode("utf-8"))
         wbs = list(range(0, total + 1))
         rfs = list(range(0, inlen + 2))
-        if quick:
-            wbs = sorted(set(rng.sample(wbs, min(len(wbs), 6)) + [0, total]))
-            rfs = sorted(set(rng.sample(rfs, min(len(rfs), 5)) + [0, inlen, inlen + 1]))
+        if quick or len(wbs) > 400 or len(rfs) > 400:
+            # (long inputs / outputs: a sample of positions plus the ends and the 64 KiB boundaries, in both tiers)
+            edge_w = [x for x in (0, total, total - 1, 65535, 65536, 65537) if 0 <= x <= total]
+            edge_r = [x for x in (0, inlen, inlen + 1, 65535, 65536, 65537) if 0 <= x <= inlen + 1]
+            nw, nr = (6, 5) if quick else (24, 24)
+            wbs = sorted(set(rng.sample(wbs, min(len(wbs), nw)) + (edge_w if not quick or len(wbs) <= 400 else [0, total])))
+            rfs = sorted(set(rng.sample(rfs, min(len(rfs), nr)) + (edge_r if not quick or len(rfs) <= 400 else [0, inlen, inlen + 1])))
         for wb in wbs:
             cases.append({"src": r["case"]["src"], "stdin": r["case"]["stdin"], "wb": wb, "rf": None, "meta": {"total_out": total, "free_out": out, "free_status": st}})
         for rf in rfs:
